@@ -87,6 +87,22 @@ def child_case(case):
     finally:
         sys.setrecursionlimit(normal)
     if res['outcome'] == 'result':
+        # differential oracle: a call that returns under a tight stack returns what it returns with ample stack
+        # (an overflow that is swallowed somewhere inside leaves a half-done result behind)
+        try:
+            sys.setrecursionlimit(max(normal, 6000))      # the comparison itself walks the (deep) trees recursively
+            ample = _call(sqlparse, entry, opts, text)
+            if entry in ('parse', 'parsestream'):
+                same = [str(s) for s in out] == [str(s) for s in ample] and oracles.shape(out) == oracles.shape(ample)
+            else:
+                same = out == ample
+            if not same:
+                res['result_ok'] = ['differs-from-ample-stack-result', '']
+        except BaseException as e:  # noqa
+            res['result_ok'] = ['ample-stack-call-raised', repr(e)[:80]]
+        finally:
+            sys.setrecursionlimit(normal)
+    if res['outcome'] == 'result' and res['result_ok'] is None:
         try:
             if entry in ('parse', 'parsestream'):
                 bad = oracles.check_c02(text, out)
